@@ -19,6 +19,7 @@ RULE += ' Half of the symmetric pairs build the broker with positional arguments
 RULE += ' 12% of the symmetric pairs have a consideration 3-4.9 billionths below n + 0.5 for n in {0, 1, 2} (unambiguously rounds down).'
 RULE += ' 30% of the symmetric pairs run on a broker built with the default fee model and given its PercentFeeModel afterwards (broker.fee_model = ...).'
 RULE += " Round 11: the same real-handler script judged on cash: fills at the FIRST source's quote that has the asset, commission = rates x |consideration rounded to whole units|."
+RULE += ' Round 12: as C04 (relative directory); every fifth shard under a 6-digit decimal context.'
 ASSUMPTIONS = [
     'the quote book is the harness\'s own data handler (the statement quantifies over bid/ask pairs with bid != ask, '
     'which the CSV data source cannot produce)',
